@@ -194,6 +194,13 @@ def run_long(shard, ctx) -> None:
 
 
 def run(shard, ctx):
+    try:
+        _run(shard, ctx)
+    finally:
+        vloop.report(ctx)
+
+
+def _run(shard, ctx):
     if shard["kind"] == "long":
         run_long(shard, ctx)
         return
